@@ -3,7 +3,7 @@
 Each row names a function, a target (assignment / struct field / let / return value / constant)
 and the pattern the value must have.  Rows are grouped by property."""
 import hirutil as H
-from hp import (unique_inits, RET, INDEX, BREAK, ASSIGNOP as _ASSIGNOP, CALLARG, CLAMP, Ctx, ANY, K, L, F, M, C, BIN, UN, CAST, TRY, P, VIA, OR, IF, CONTAINS, find, assignments,
+from hp import (unique_inits, PARAM_TY, RET, INDEX, BREAK, ASSIGNOP as _ASSIGNOP, CALLARG, CLAMP, Ctx, ANY, K, L, F, M, C, BIN, UN, CAST, TRY, P, VIA, OR, IF, CONTAINS, find, assignments,
                 struct_field_inits, strip)
 from facts import callee_of, op_local
 from common import loc_of
@@ -104,9 +104,9 @@ def _all_assign(fn_chain, pat, base='state'):
     return chk
 
 
-def _struct_init(adt, field, pat):
+def _struct_init(adt, field, pat, where=None):
     def chk(ctx, hfn):
-        inits = struct_field_inits(hfn, adt, field)
+        inits = struct_field_inits(hfn, adt, field, where)
         if not inits:
             return False, 'no `%s { %s: .. }` literal found' % (adt.split('::')[-1], field), None
         for e, ln, anc in inits:
@@ -121,11 +121,21 @@ def _let(name, pat, every=True):
     def chk(ctx, hfn):
         inits = ctx.inits.get(name, [])
         if not inits:
-            # the local was renamed: some binding of the function must have the required form
+            # the local was renamed: some binding of the function must have the required form; a field of a
+            # struct literal (`Span { reversed: .. }`) is a binding too
             for nm, its in ctx.inits.items():
                 for i in its:
                     if pmatch(ctx, pat, i):
                         return True, '', i.get('ln')
+            fields = []
+
+            def v(n, anc):
+                if n.get('k') == 'struct':
+                    fields.extend(f['e'] for f in n.get('fields', []))
+            H.walk(hfn['body'], v)
+            for i in fields:
+                if pmatch(ctx, pat, i):
+                    return True, '', i.get('ln') if isinstance(i, dict) else None
             return False, 'no binding of the form %r found (`%s` no longer exists)' % (pat, name), None
         if not inits:
             return False, 'no binding `%s` found' % name, None
@@ -775,13 +785,10 @@ def _break_forces_combo(ctx, hfn):
     flags = set()
     applied = 0
 
-    def v1(n, anc):
-        nonlocal applied
-        if n.get('k') == 'assignop' and n.get('op') == 'BitOrAssign' and strip(n['l']).get('k') == 'field' \
-                and strip(n['l']).get('n') == 'new_combo' and strip(n['r']).get('k') == 'local':
-            flags.add(strip(n['r'])['name'])
-            applied += 1
-    H.walk(hfn['body'], v1)
+    for r_, mult, _n in H.new_combo_or_sites(ctx.facts, hfn):
+        if strip(r_).get('k') == 'local':
+            flags.add(strip(r_)['name'])
+            applied += mult
     if len(flags) != 1:
         return False, 'no single flag is or-ed into `new_combo` (found %s)' % sorted(flags), None
     flag = next(iter(flags))
@@ -789,7 +796,7 @@ def _break_forces_combo(ctx, hfn):
         return False, 'the flag is not applied to circles, sliders and spinners (%d of 3)' % applied, None
     ALLOWED_FIELDS = {'end_time', 'start_time', 'breaks'}
     ALLOWED_METHODS = {'len', 'get', 'split_first', 'first', 'is_some', 'is_none', 'is_empty', 'as_slice', 'iter', 'peek',
-                       'next', 'copied', 'cloned', 'is_some_and'}
+                       'next', 'copied', 'cloned', 'is_some_and', 'next_if', 'peekable'}
     problems = []
 
     def guard_ok(c):
@@ -1035,9 +1042,10 @@ def _last_tick_mirror(ctx, hfn):
 
 _last_tick_mirror.positive = True
 row('C20', NXT, 'last-tick-mirrored-on-even-span-count', _last_tick_mirror)
-row('C20', GENT, 'reversed', _let('reversed', BIN('Eq', BIN('Rem', L('span'), K(2)), K(1))))
-row('C20', GENT, 'span_start_time', _let('span_start_time', SPAN_START(L('span'))))
-row('C20', GENT, 'with_repeat', _let('with_repeat', BIN('Lt', L('span'), BIN('Sub', F(ANY(), 'span_count'), K(1)))))
+SPANP = PARAM_TY('i32')      # the span index handed to generate_ticks (whatever it is called)
+row('C20', GENT, 'reversed', _let('reversed', BIN('Eq', BIN('Rem', SPANP, K(2)), K(1))))
+row('C20', GENT, 'span_start_time', _let('span_start_time', SPAN_START(SPANP)))
+row('C20', GENT, 'with_repeat', _let('with_repeat', BIN('Lt', SPANP, BIN('Sub', F(ANY(), 'span_count'), K(1)))))
 row('C20', GENT, 'first-tick-distance', _let('d', F(ANY(), 'tick_dist')))
 row('C20', GENT, 'tick-step', _contains(_ASSIGNOP('AddAssign', L('d'), F(ANY(), 'tick_dist')),
                                         'ticks advance by the tick distance (`d += tick_dist`)'))
@@ -1048,16 +1056,21 @@ row('C20', GENT, 'min-distance-from-end',
 row('C20', GENT, 'tick:path_progress', _let('path_progress', BIN('Div', L('d'), F(ANY(), 'len'))))
 row('C20', GENT, 'tick:time-mirrored-on-reversed-spans',
     _let('time_progres', IF(L('reversed'), BIN('Sub', K(1.0), L('path_progress')), L('path_progress'))))
+_TICK = ('kind', 'SliderEventType::Tick')
+_REPEAT = ('kind', 'SliderEventType::Repeat')
 row('C20', GENT, 'tick:time',
     _struct_init(EVENT + 'SliderEvent', 'time',
-                 BIN('Add', L('span_start_time'), BIN('Mul', L('time_progres'), F(ANY(), 'span_duration'), commutative=True))))
-row('C20', GENT, 'tick:progress', _struct_init(EVENT + 'SliderEvent', 'path_progress', L('path_progress')))
-row('C20', GENT, 'tick:span', _struct_init(EVENT + 'SliderEvent', 'span_idx', L('span')))
-row('C20', REPT, 'repeat:time',
-    _struct_init(EVENT + 'SliderEvent', 'time', BIN('Add', L('span_start_time'), OR(L('span_duration'), F(ANY(), 'span_duration')))))
-row('C20', REPT, 'repeat:progress',
-    _struct_init(EVENT + 'SliderEvent', 'path_progress', FROM(BIN('Rem', BIN('Add', L('span'), K(1)), K(2)))))
-row('C20', REPT, 'repeat:span', _struct_init(EVENT + 'SliderEvent', 'span_idx', L('span')))
+                 BIN('Add', L('span_start_time'), BIN('Mul', L('time_progres'), F(ANY(), 'span_duration'), commutative=True)),
+                 where=_TICK))
+row('C20', GENT, 'tick:progress', _struct_init(EVENT + 'SliderEvent', 'path_progress', L('path_progress'), where=_TICK))
+row('C20', GENT, 'tick:span', _struct_init(EVENT + 'SliderEvent', 'span_idx', SPANP, where=_TICK))
+# the repeat event of a span (built by a helper of generate_ticks today: the rows see it through inlining)
+row('C20', GENT, 'repeat:time',
+    _struct_init(EVENT + 'SliderEvent', 'time', BIN('Add', L('span_start_time'), OR(L('span_duration'), F(ANY(), 'span_duration'))),
+                 where=_REPEAT))
+row('C20', GENT, 'repeat:progress',
+    _struct_init(EVENT + 'SliderEvent', 'path_progress', FROM(BIN('Rem', BIN('Add', SPANP, K(1)), K(2))), where=_REPEAT))
+row('C20', GENT, 'repeat:span', _struct_init(EVENT + 'SliderEvent', 'span_idx', SPANP, where=_REPEAT))
 
 
 def local_callees(facts, hfn, depth=2, seen=None):
